@@ -140,7 +140,7 @@ func cmdCheck(args []string) int {
 			// filter clauses labelled for other properties
 			var keep []*Obligation
 			for _, o := range vc.obls {
-				if lp := labelProp(o.Label); lp != "" && lp != pid {
+				if !labelCounts(o.Label, pid) {
 					continue
 				}
 				keep = append(keep, o)
@@ -492,4 +492,21 @@ func globalWriters(P *Program, S *Specs, pkgs map[string]bool) []string {
 	}
 	sort.Strings(out)
 	return out
+}
+
+// labelCounts: an obligation counts for property pid if it is unlabelled or one of its (comma separated)
+// labels belongs to pid.
+func labelCounts(label, pid string) bool {
+	any := false
+	for _, l := range strings.Split(label, ",") {
+		lp := labelProp(strings.TrimSpace(l))
+		if lp == "" {
+			continue
+		}
+		any = true
+		if lp == pid {
+			return true
+		}
+	}
+	return !any
 }
